@@ -45,21 +45,29 @@ ASSUMPTIONS = [
     "ktensor.redistribute is called exactly once per mode per outer iteration by all three algorithms and by "
     "nothing else inside cp_apr (checked: the recorded mode sequence must be (0..N-1)* in every run)",
     "the virtual clock replaces the `time` module object inside pyttb.cp_apr only; one tick per call",
+    "init='random': numpy's global stream seeded by np.random.seed(s) (seeded mode of DESIGN 3); the guess the "
+    "library must report is re-derived from the documented recipe (uniform(0,1) factors in mode order, unit weights)",
     "pqnr aborts matching the known finding are excluded from the numeric verdicts (nothing is returned)",
 ]
 BOUNDS = {
     "quick": "shapes (2,3),(3,4),(2,3,2),(3,3,3); 7 members per shape (generic counts, strictly positive, exact "
              "integer rank-1 and rank-2 Kruskal products, empty first slice, all-zero fibre, binary); holders tensor, "
-             "sptensor; rank 1..3; guesses positive / all-zero first row of mode 0 / zero last weight; algorithms mu, "
+             "sptensor; rank 1..3; guesses positive / all-zero first row of mode 0 / zero last weight / init='random' "
+             "under np.random.seed(0) (rank 2 only); algorithms mu, "
              "pdnr, pqnr; K = 3 horizons; option lattice maxinneriters {1,2,10} x stoptol {1e-4,1e-10} x printitn {0,1} "
              "x printinneritn {0,1} x stoptime {default, 0 ticks} [x inexact {T,F} pdnr] [x lbfgsMem {1,3} pqnr] "
              "[x precompinds {T,F} pdnr/pqnr on sparse data]: base + 3 rotating lattice points per group, the complete "
-             "lattice on the (2,3) generic member, rank 2, positive guess, both holders, all three algorithms",
+             "lattice on the (2,3) generic member, rank 2, positive guess, both holders, all three algorithms; pdnr "
+             "groups of rank >= 2 additionally run the base point with the undamped Hessian (mu0 = 0), which reaches "
+             "the singular-Hessian and positive-predicted-reduction fall-back directions",
     "thorough": "same shapes; 10 members per shape (second value seed of generic/positive, empty last slice of the "
-                "last mode added); holders additionally int64 tensor and sptensor stored in reverse order; guesses "
-                "additionally all-zero last row of the last mode and the all-ones guess; K = 5 horizons; base + 7 "
+                "last mode added); holders additionally int64 tensor and sptensor stored in reverse order (with the positive, "
+                "zero-row and first random guess); guesses "
+                "additionally all-zero last row of the last mode, the all-ones guess and init='random' under seeds "
+                "{0,1} for every rank; K = 5 horizons; base + 7 "
                 "rotating lattice points per group; the complete lattice on shapes (2,3),(2,3,2) x members {generic, "
-                "rank-2 product, empty slice} x rank 2 x guesses {positive, zero row} x {tensor, sptensor}",
+                "rank-2 product, empty slice} x rank 2 x guesses {positive, zero row} x {tensor, sptensor}; every "
+                "pdnr group additionally runs the mu0 = 0 probe",
 }
 CHUNK = 2
 
@@ -170,10 +178,17 @@ def is_sparse(holder):
 # ---------------------------------------------------------------------------
 # starting guesses
 
-GUESSES = {"quick": ("pos", "zrow0", "zw"), "thorough": ("pos", "zrow0", "zw", "zrowL", "ones")}
+GUESSES = {"quick": ("pos", "zrow0", "zw", "rand0"), "thorough": ("pos", "zrow0", "zw", "zrowL", "ones", "rand0", "rand1")}
 
 
 def guess_parts(shape, R, kind, gseed=0):
+    if kind.startswith("rand"):
+        # init="random" under np.random.seed(s): the guess cp_apr draws, re-derived from the documented recipe
+        st = np.random.get_state()
+        np.random.seed(int(kind[4:]) + 10 * gseed)
+        fs = [np.random.uniform(0, 1, (s, R)) for s in shape]
+        np.random.set_state(st)
+        return np.ones(R), fs
     w = np.array([1.5, 0.5, 2.0][:R])
     fs = [np.array([[(1 + ((2 * i + 3 * r + n + gseed) % 5)) / 4.0 for r in range(R)] for i in range(s)])
           for n, s in enumerate(shape)]
@@ -255,12 +270,19 @@ def gen_cases(tier, seed):
         for d in members(shape, tier, seed):
             for R in (1, 2, 3):
                 for guess in GUESSES[tier]:
+                    if guess.startswith("rand") and tier == "quick" and R != 2:
+                        continue
                     for holder in HOLDERS[tier]:
+                        if holder in ("tensor_int", "sptensor_rev") and guess not in ("pos", "zrow0", "rand0"):
+                            continue
                         for alg in ALGS:
                             full = _is_full(tier, seed, shape, d, holder, R, guess)
-                            yield {"check": "apr", "data": d, "holder": holder, "rank": R, "guess": guess,
-                                   "gseed": seed, "alg": alg, "cfgs": "full" if full else ROTATING[tier], "gi": gi,
-                                   "K": KMAX[tier]}
+                            c = {"check": "apr", "data": d, "holder": holder, "rank": R, "guess": guess,
+                                 "gseed": seed, "alg": alg, "cfgs": "full" if full else ROTATING[tier], "gi": gi,
+                                 "K": KMAX[tier]}
+                            if alg == "pdnr" and (tier == "thorough" or R >= 2):
+                                c["probe_mu0"] = True      # undamped Hessian: reaches both fall-back directions
+                            yield c
                             gi += 1
 
 
@@ -365,6 +387,8 @@ def _run_apr(case, ctx):
         cfgs = [case["cfg"]]
     else:
         cfgs = select_cfgs(alg, sparse, case["cfgs"], case["gi"])
+        if case.get("probe_mu0"):
+            cfgs = cfgs + [dict(BASE, precompinds=True, inexact=case["gi"] % 2 == 0, mu0=0.0)]
     w0, f0 = guess_parts(shape, R, gkind, case.get("gseed", 0))
     L0 = ref_loglik(a, w0, f0)
     group_nontrivial = False
@@ -381,14 +405,23 @@ def _run_apr(case, ctx):
         horizons = range(1, K + 1) if cfg["stoptime"] == "default" else (1, K)
         for k in horizons:
             X = build_data(a, holder)
-            G = ttb.ktensor([f.copy(order="F") for f in f0], w0.copy())
+            if gkind.startswith("rand"):
+                G = "random"
+                rstate = np.random.get_state()
+                np.random.seed(int(gkind[4:]) + 10 * case.get("gseed", 0))
+            else:
+                G = ttb.ktensor([f.copy(order="F") for f in f0], w0.copy())
             before = O.snapshot({"data": X, "guess": G})
             ctx.tick()
             try:
                 with owned_environment() as (clock, modes), warnings.catch_warnings(record=True) as wlist, \
                         contextlib.redirect_stdout(io.StringIO()):
                     warnings.simplefilter("always")
-                    M, Ginit, out = ttb.cp_apr(X, R, algorithm=alg, init=G, **_kwargs(cfg, k))
+                    try:
+                        M, Ginit, out = ttb.cp_apr(X, R, algorithm=alg, init=G, **_kwargs(cfg, k))
+                    finally:
+                        if isinstance(G, str):
+                            np.random.set_state(rstate)
             except Exception as e:  # noqa: BLE001
                 msg = str(e)
                 if alg == "pqnr" and isinstance(e, AssertionError) and KNOWN_ABORT in msg:
@@ -431,7 +464,8 @@ def _run_apr(case, ctx):
                      f"shape={M.shape} ncomponents={M.ncomponents} weights{wts.shape} "
                      f"factors={[f.shape for f in fms]} want shape={shape} rank={R}", k)
                 break
-            if any(np.shares_memory(f, g) for f in fms + [wts] for g in list(G.factor_matrices) + [G.weights]):
+            Gk = Ginit if isinstance(G, str) else G
+            if any(np.shares_memory(f, g) for f in fms + [wts] for g in list(Gk.factor_matrices) + [Gk.weights]):
                 fail("cp_apr.inputs", "alias", "returned model shares memory with the caller's guess", k)
             allv = np.concatenate([wts.ravel()] + [f.ravel() for f in fms]).astype(float)
             if np.isnan(allv).any():
